@@ -69,3 +69,15 @@ package server
 //@   noframe
 //@   nosafety
 //@   call Cache.Get#* asserts[C01] chunk: arg2 == 1 && arg3 == chunkDigest.Hash && arg4 == chunkDigest.SizeBytes && arg5 == 0
+
+// GetTree (C02, C14): the root directory is fetched from the CAS under the request's digest, and
+// a missing or undecodable root is an error, never a partial tree.
+//@ iface (github.com/buchgr/bazel-remote/v2/genproto/build/bazel/remote/execution/v2.ContentAddressableStorage_GetTreeServer).Send(srv, m)
+//@   pure
+//@ func (s *grpcServer) GetTree(in *pb.GetTreeRequest, stream pb.ContentAddressableStorage_GetTreeServer) error
+//@   serves C02 C14
+//@   requires s != nil && s.cache != nil && s.accessLogger != nil && s.errorLogger != nil && stream != nil
+//@   noframe
+//@   call getBlobData#* asserts[C02] root: in.RootDigest != nil && arg2 == in.RootDigest.Hash && arg3 == in.RootDigest.SizeBytes
+//@   call fillDirectories#* asserts[C02] decoded: err == nil && arg2 == &resp && arg3 == &dir
+//@   call Send#* asserts[C02] whole: arg1 == &resp && err == nil
